@@ -19,3 +19,21 @@ def legOK (toRowan : Bool) (X x Y : Nat) (r f : Dec) (y : Nat) : Bool :=
   decide ((y : Rat) ≤ upper toRowan X x Y r f)
 
 end Sif.Spec.C03
+
+namespace Sif.Spec.C03
+
+/-- expected balance change of (account, denomination) by a successful swap -/
+def delta (signer sent recv : String) (amt y : Nat) (a d : String) : Int :=
+  (if a = signer ∧ d = sent then -(amt : Int) else 0) + (if a = signer ∧ d = recv then (y : Int) else 0) +
+  (if a = "clp" ∧ d = sent then (amt : Int) else 0) + (if a = "clp" ∧ d = recv then -(y : Int) else 0)
+
+/-- exact settlement, judged on the balance changes the implementation produced: every reported
+    change is the expected one, every expected non-zero change is reported, and the output
+    honours the minimum.  `changes` = all (account, denom, before, after) that differ. -/
+def settleOK (signer sent recv : String) (amt mn y : Nat) (changes : List (String × String × Nat × Nat)) : Bool :=
+  decide (mn ≤ y) &&
+  changes.all (fun c => decide ((c.2.2.2 : Int) - (c.2.2.1 : Int) = delta signer sent recv amt y c.1 c.2.1)) &&
+  [(signer, sent), (signer, recv), ("clp", sent), ("clp", recv)].all (fun k =>
+    decide (delta signer sent recv amt y k.1 k.2 = 0) || changes.any (fun c => c.1 = k.1 && c.2.1 = k.2))
+
+end Sif.Spec.C03
